@@ -17,12 +17,12 @@ pub fn prop() -> Prop {
             "the font table is extracted from /repo/src/mono_font/generated at build time",
         ],
         subs: vec![
-            Sub::tape("primitives", 40, 240_000, 12_000_000, |d, cx| run(d, cx, 0)).with_fp(),
-            Sub::tape("primitives_large", 40, 4_000, 200_000, |d, cx| run(d, cx, 4)),
-            Sub::tape("polylines", 40, 50_000, 2_500_000, |d, cx| run(d, cx, 1)),
-            Sub::tape("primitives_display_scale", 40, 6_000, 300_000, display_scale).with_fp(),
-            Sub::tape("thick_polylines_triangles", 24, 300_000, 15_000_000, thick_joins),
-            Sub::tape("images", 120, 30_000, 1_500_000, |d, cx| run(d, cx, 2)),
+            Sub::tape("primitives", 64, 240_000, 12_000_000, |d, cx| run(d, cx, 0)).with_fp(),
+            Sub::tape("primitives_large", 64, 4_000, 200_000, |d, cx| run(d, cx, 4)),
+            Sub::tape("polylines", 72, 50_000, 2_500_000, |d, cx| run(d, cx, 1)),
+            Sub::tape("primitives_display_scale", 64, 6_000, 300_000, display_scale).with_fp(),
+            Sub::tape("thick_polylines_triangles", 40, 300_000, 15_000_000, thick_joins),
+            Sub::tape("images", 400, 30_000, 1_500_000, |d, cx| run(d, cx, 2)),
             Sub::tape("text_random", 300, 100_000, 5_000_000, |d, cx| run(d, cx, 3)),
             Sub::tape("text_spaced_fonts", 300, 60_000, 3_000_000, text_spaced_fonts),
             Sub::enumerate("fonts_matrix", fonts_matrix),
@@ -84,6 +84,14 @@ pub fn check_item<C: ImgCol>(item: &Item<C>) -> Result<usize, Fail> {
     for &(x, y) in t.0.map.keys() {
         let p = Point::new(x, y);
         if !bb.contains(p) {
+            // F-17 (known finding, see C14): with neither text nor background colour the decorations of
+            // a spaced font are one trailing spacing too wide
+            if let Item::Text(x) = item {
+                let right = bb.top_left.x + bb.size.width as i32;
+                if x.spacing > 0 && x.text_color.is_none() && x.background.is_none() && p.x >= right && p.x < right + x.spacing as i32 && p.y >= bb.top_left.y && p.y < bb.top_left.y + bb.size.height as i32 + 64 {
+                    return fail("transparent_spaced_text:trailing_spacing", format!("{:?} (a decoration pixel in the trailing spacing) lies outside bounding_box() = {:?}", p, bb));
+                }
+            }
             return fail(format!("{}:outside_bounding_box", k), format!("{:?} was painted but lies outside bounding_box() = {:?}", p, bb));
         }
     }
@@ -114,6 +122,7 @@ fn fonts_matrix(ex: &Ex) {
                         baseline,
                         line_height: LineHeight::Percent(100),
                         route: 0,
+                        spacing: 0,
                     });
                     count += 1;
                     match check_item(&item) {
